@@ -178,6 +178,8 @@ class Wrappers(SubCheck):
         def case(draw):
             deco = draw(st.sampled_from(DECORATORS))
             pool = draw(st.lists(sig_strategy, min_size=1, max_size=5))
+            # the same call written with its keyword arguments in the other order is the same call
+            pool = pool + [(a, tuple(reversed(k))) for a, k in pool if len(k) >= 2][:2]
             calls = draw(
                 st.lists(
                     st.one_of(st.tuples(st.just('call'), st.integers(0, len(pool) - 1)), st.tuples(st.just('advance'), st.sampled_from([1, 5, 20]))),
@@ -337,6 +339,15 @@ class SignaturePairs(SubCheck):
             sigs.append((a[:-1], k))
         elif twin == 'reorder' and len(k) >= 2:
             sigs.append((a, tuple(reversed(k))))
+        if twin == 'reorder' and len(k) >= 2 and len({name for name, _ in k}) == len(k):
+            k1 = args_to_key(('f',), a, dict(k), typed, ignore)
+            k2 = args_to_key(('f',), a, dict(tuple(reversed(k))), typed, ignore)
+            if strict(k1) != strict(k2):
+                raise Violation(
+                    'C16/same-call-different-key/keyword-order',
+                    'typed=%r ignore=%r: f(*%r, **%r) written with its keywords in the other order gets another cache key: %s vs %s'
+                    % (typed, sorted(map(repr, ignore)), a, dict(k), short(k1, 200), short(k2, 200)),
+                )
         groups = {}
         for args, kw in sigs:
             if len({name for name, _ in kw}) != len(kw):
